@@ -1,11 +1,12 @@
 (* C02 — an epoch conserves population size and keeps species a partition.
-   Property theorems only; proofs live in proofs/PopBase.v, PopPrepare.v, PopRepro.v, PopFinal.v, PopInv.v.
+   Property theorems only; proofs live in proofs/PopBase.v, PopPrepare.v, PopRepro.v, PopFinal.v, PopInv.v,
+   PopNoErr.v.
    Model: model/Population.v (organisms live in a heap keyed by o_key; Population.Organisms and
    Species.Organisms are lists of keys; organisms name their species by id). *)
 From Coq Require Import ZArith List Floats.
 Import ListNotations.
 Open Scope Z_scope.
-From NeatModel Require Import Res F64 GoRand GoSource Genome Options GenomeLit Population PopBase PopInv.
+From NeatModel Require Import Res F64 GoRand GoSource Genome Options GenomeLit Population WF PopBase PopRepro PopInv PopNoErr.
 
 (* the invariant [Part] written out: Population.Organisms has no duplicates and every key denotes an
    organism; species ids are unique and at most LastSpecies; no species is empty; no organism is
@@ -29,12 +30,18 @@ Theorem C02_part_meaning : forall p,
 Proof. exact Part_unfold. Qed.
 Print Assumptions C02_part_meaning.
 
+(* [Fresh p]: no organism of the population carries an elimination mark (Organism.toEliminate) *)
+Theorem C02_fresh_meaning : forall p,
+  Fresh p <-> (forall k x, In k (p_orgs p) -> hget (p_heap p) k = Ok x -> o_elim x = false).
+Proof. intros p. reflexivity. Qed.
+Print Assumptions C02_fresh_meaning.
+
 (* NewPopulation: for every options record, start genome, tape and innovation state, a population
    that is constructed at all satisfies the invariant, has the configured size, genome ids 0..N-1,
    and all its species are novel, of age one, with ids from 1 *)
 Theorem C02_init : forall o g s p s',
   new_population o g s = Ok (p, s') ->
-  Part p /\ zlen (p_orgs p) = o_pop_size o /\
+  Part p /\ Fresh p /\ zlen (p_orgs p) = o_pop_size o /\
   map (gid_at (p_heap p)) (p_orgs p) = zrange 0 (o_pop_size o) /\
   (forall y, In y (p_species p) -> sp_age y = 1 /\ sp_novel y = true /\ 1 <= sp_id y).
 Proof. exact new_population_full. Qed.
@@ -46,6 +53,11 @@ Theorem C02_set_fitness : forall p fs h',
 Proof. exact set_fitness_part. Qed.
 Print Assumptions C02_set_fitness.
 
+Theorem C02_set_fitness_fresh : forall p fs h',
+  Fresh p -> set_fitness (p_heap p) (p_orgs p) fs = Ok h' -> Fresh (p_with_heap p h').
+Proof. exact set_fitness_fresh. Qed.
+Print Assumptions C02_set_fitness_fresh.
+
 (* one epoch, for every options record, generation number, executor state, tape and innovation
    state, and every fitness assignment (the heap is arbitrary): a turnover that returns no error
    leaves the invariant intact, exactly PopSize organisms, none of which belonged to the previous
@@ -54,7 +66,7 @@ Print Assumptions C02_set_fitness.
    species founded during the turnover have age one; genome ids are 0..PopSize-1 *)
 Theorem C02_step : forall o gen p x s p' x' s',
   next_epoch o gen p x s = Ok ((p', x'), s') -> Part p ->
-  Part p' /\ zlen (p_orgs p') = o_pop_size o /\
+  Part p' /\ Fresh p' /\ zlen (p_orgs p') = o_pop_size o /\
   (forall k, In k (p_orgs p') -> p_next_key p <= k /\ ~ In k (p_orgs p)) /\
   p_last_species p <= p_last_species p' /\
   (forall s1, In s1 (p_species p') -> sp_id s1 <= p_last_species p ->
@@ -70,7 +82,7 @@ Print Assumptions C02_step.
 Theorem C02_history : forall o steps p x s p' x' s',
   run_epochs o steps p x s = Ok (p', x', s') -> Part p ->
   (forall y, In y (p_species p) -> 1 <= sp_age y) ->
-  Part p' /\
+  Part p' /\ (Fresh p -> Fresh p') /\
   (steps <> [] -> zlen (p_orgs p') = o_pop_size o /\
                   map (gid_at (p_heap p')) (p_orgs p') = zrange 0 (o_pop_size o) /\
                   forall k, In k (p_orgs p') -> p_next_key p <= k /\ ~ In k (p_orgs p)) /\
@@ -84,6 +96,71 @@ Theorem C02_history : forall o steps p x s p' x' s',
   (forall y, In y (p_species p') -> 1 <= sp_age y).
 Proof. exact run_epochs_full. Qed.
 Print Assumptions C02_history.
+
+(* "succeeds without error".  Hypotheses: the invariant; no stale elimination marks; the survival
+   threshold keeps at least the champion of a species ([survivors_ok]: floor(SurvivalThresh*n+1) >= 1
+   for n >= 1); the population does not die out ([survives]: purgeZeroOffspringSpecies keeps a
+   species); PopSize > 0; CompatThreshold <> 0; and the quota hypothesis: the offspring quotas
+   after prepareForReproduction total PopSize (C09 proves this from "the floor-and-carry total does
+   not exceed PopSize").
+   Then NextEpoch succeeds, or runs out of tape, or fails with exactly the failure of one call of the
+   per-baby body of Species.reproduce ([one_baby]: genome duplication, mutation and mating operators
+   and the random parent draws) made for a species [sp] of the prepared population in a state [rs]
+   the breeding loop can reach.  In particular removeOrganism (70), reproduce out of an empty
+   species (71), nothing to speciate (72), threshold zero (73), progeny size (74), best species
+   died (75) and the nil / index panics of the epoch's own look-ups (hget, first_org, sp_find in
+   prepare, speciate, finalize) never occur.  Partial: failures inside [one_baby] are not analysed
+   (they belong to the operators of C01 and to the parent draws). *)
+Theorem C02_no_error_partial : forall o gen p x s,
+  Part p -> Fresh p -> survivors_ok o -> survives o p -> 0 < o_pop_size o ->
+  PrimFloat.eqb (o_compat_thresh o) 0 = false ->
+  (forall p1 sorted best s1, prepare o p s = Ok ((p1, sorted, best), s1) ->
+                             sum_exp (p_species p1) = o_pop_size o) ->
+  (exists r, next_epoch o gen p x s = Ok r) \/
+  next_epoch o gen p x s = OutOfTape \/
+  exists p1 sorted best s1 sp count rs st' hi keyi,
+    prepare o p s = Ok ((p1, sorted, best), s1) /\ In sp (p_species p1) /\
+    bred (p_heap p1) (p_next_key p1) hi keyi /\ rs_ok hi keyi rs /\
+    failure (one_baby o gen (all_sp p1) sorted sp count rs st') <> None /\
+    failure (next_epoch o gen p x s) = failure (one_baby o gen (all_sp p1) sorted sp count rs st').
+Proof. exact next_epoch_failures. Qed.
+Print Assumptions C02_no_error_partial.
+
+(* hence: if the per-baby body never fails (other than by exhausting the tape) in a reachable
+   state, the epoch succeeds or exhausts the tape *)
+Theorem C02_no_error_modulo_one_baby_partial : forall o gen p x s,
+  Part p -> Fresh p -> survivors_ok o -> survives o p -> 0 < o_pop_size o ->
+  PrimFloat.eqb (o_compat_thresh o) 0 = false ->
+  (forall p1 sorted best s1, prepare o p s = Ok ((p1, sorted, best), s1) ->
+                             sum_exp (p_species p1) = o_pop_size o) ->
+  (forall p1 sorted best s1 sp count rs st' hi keyi,
+     prepare o p s = Ok ((p1, sorted, best), s1) -> In sp (p_species p1) ->
+     bred (p_heap p1) (p_next_key p1) hi keyi -> rs_ok hi keyi rs ->
+     failure (one_baby o gen (all_sp p1) sorted sp count rs st') = None \/
+     failure (one_baby o gen (all_sp p1) sorted sp count rs st') = Some FTape) ->
+  (exists r, next_epoch o gen p x s = Ok r) \/ next_epoch o gen p x s = OutOfTape.
+Proof. exact next_epoch_no_error. Qed.
+Print Assumptions C02_no_error_modulo_one_baby_partial.
+
+(* prepareForReproduction by itself never fails (it only consumes randomness when babies are stolen) *)
+Theorem C02_prepare_no_error : forall o p s,
+  Part p -> Fresh p -> survivors_ok o -> survives o p ->
+  prepare o p s = OutOfTape \/
+  exists p1 sorted best s1, prepare o p s = Ok ((p1, sorted, best), s1) /\
+                            forall y, In y (p_species p1) -> sp_orgs y <> [].
+Proof. exact prepare_forward. Qed.
+Print Assumptions C02_prepare_no_error.
+
+(* the full statement (not proved): with well-formed genomes and a tape of genuine 63-bit draws
+   the hypothesis about [one_baby] is discharged as well *)
+Definition C02_full : Prop := forall o gen p x s,
+  Part p -> Fresh p -> survivors_ok o -> survives o p -> 0 < o_pop_size o ->
+  PrimFloat.eqb (o_compat_thresh o) 0 = false ->
+  (forall p1 sorted best s1, prepare o p s = Ok ((p1, sorted, best), s1) ->
+                             sum_exp (p_species p1) = o_pop_size o) ->
+  (forall k y, In k (p_orgs p) -> hget (p_heap p) k = Ok y -> wf (o_genome y)) ->
+  Forall (fun c => 0 <= c < 2 ^ 63) (s_tape s) ->
+  (exists r, next_epoch o gen p x s = Ok r) \/ next_epoch o gen p x s = OutOfTape.
 
 (* non-vacuity: a population of 16 spawned on Go's stream for one seed, three epochs *)
 Definition ex_opts : options := OPT [0x1p-01%float; 0x1p+00%float; 0x1.4p+01%float; 0x1p+00%float; 0x1p+00%float; 0x1.999999999999ap-02%float; 0x1.3333333333333p-02%float; 0x1p+00%float; 0x1.999999999999ap-04%float; 0x1.412feefadd96fp-01%float; 0x1.999999999999ap-04%float; 0x1.999999999999ap-04%float; 0x1.999999999999ap-04%float; 0x1.ccccccccccccdp-01%float; 0x1.3559a2dae866cp-03%float; 0x1.937e04d94711ap-03%float; 0x1.aaa7660b6ed51p-04%float; 0x1.bb6523f418de7p-01%float; 0x1.21bb238153d06p-03%float; 0x1.3333333333333p-02%float; 0x1.999999999999ap-02%float; 0x1.3333333333333p-02%float; 0x1.3333333333333p-02%float; 0x1.999999999999ap-03%float; 0x1.999999999999ap-03%float] 16 3 20 0 true [12; 4] [0x1p-01%float; 0x1p-01%float].
@@ -124,6 +201,26 @@ Example C02_example_part :
               (forall y, In y (p_species p) -> 1 <= sp_age y).
 Proof.
   destruct (is_ok_pair (new_population ex_opts ex_genome ex_s0)) as (p & s & E); [vm_compute; reflexivity|].
-  exists p, s. split; [exact E|]. apply C02_init in E. destruct E as (HP & _ & _ & Hs).
+  exists p, s. split; [exact E|]. apply C02_init in E. destruct E as (HP & _ & _ & _ & Hs).
   split; [exact HP|]. intros y Hy. destruct (Hs y Hy) as (-> & _). discriminate.
 Qed.
+
+(* the quota hypothesis and "the population survives" hold on the example: after
+   prepareForReproduction of the first epoch the quotas total PopSize and no species is empty *)
+Example C02_example_quota :
+  match new_population ex_opts ex_genome ex_s0 with
+  | Ok (p, s) =>
+    match set_fitness (p_heap p) (p_orgs p) ex_fit with
+    | Ok h =>
+      match prepare ex_opts (p_with_heap p h) s with
+      | Ok ((p1, _, _), _) =>
+        Z.eqb (sum_exp (p_species p1)) (o_pop_size ex_opts) &&
+        forallb (fun y => negb (Nat.eqb (length (sp_orgs y)) 0)) (p_species p1) &&
+        negb (Nat.eqb (length (p_species p1)) 0)
+      | _ => false
+      end
+    | _ => false
+    end
+  | _ => false
+  end = true.
+Proof. vm_compute. reflexivity. Qed.
